@@ -467,6 +467,27 @@ func (in *inst) stateChecks(l Letter) []mc.Fail {
 			}
 		}
 	}
+	if c.Resolve && !c.Referrers {
+		// "no installed entry ever dangles" also needs every referenced group / next-hop to be protected NOW: one that
+		// is referenced but whose protection counter is zero is a single acknowledged DELETE away from a dangling
+		// entry (the other direction - protected although unreferenced - only concerns C03).
+		rc := in.r.VerifRefCounts()
+		for _, e := range real.E {
+			if e.Kind != ribx.NH && e.Kind != ribx.NHG {
+				continue
+			}
+			var cnt, id uint64
+			fmt.Sscan(e.Key, &id)
+			if e.Kind == ribx.NH {
+				cnt = rc[e.NI].NextHop[id]
+			} else {
+				cnt = rc[e.NI].NextHopGroup[id]
+			}
+			if refs := real.Referrers(e.NI, e.Kind, e.Key); refs > 0 && cnt == 0 {
+				bad("C02/referenced-entry-is-unprotected/"+e.Kind.String(), "after %s: %s %s@%s has %d installed referrers but its deletion protection counter is 0: a DELETE would be acknowledged and leave them dangling", l.Name, e.Kind, e.Key, e.NI, refs)
+			}
+		}
+	}
 	if c.Referrers {
 		rc := in.r.VerifRefCounts()
 		for _, e := range real.E {
